@@ -53,9 +53,9 @@ type HOp struct {
 type Profile struct {
 	Name string
 	// weights
-	WWrite, WBig, WConflict, WRewrite, WSnapshot, WCompact, WCompactFiles, WDelete, WDropSeries, WDropMeas, WReopen, WRead, WIndexCompact, WBurst int
-	Windows                                                                                                                                       bool // snapshot windows with an operation inside
-	Faults                                                                                                                                        bool // injected compaction/snapshot faults
+	WWrite, WBig, WConflict, WRewrite, WSnapshot, WCompact, WCompactFiles, WDelete, WDropSeries, WDropMeas, WReopen, WRead, WIndexCompact, WBurst, WStagger int
+	Windows                                                                                                                                                 bool // snapshot windows with an operation inside
+	Faults                                                                                                                                                  bool // injected compaction/snapshot faults
 	// oracles
 	CheckReads   bool
 	CheckListing bool
@@ -135,7 +135,7 @@ func GenHOp(t *rapid.T, pr *Profile, nshards int, label string, inWindow bool) H
 		{"delete", pr.WDelete}, {"dropseries", pr.WDropSeries}, {"dropmeas", pr.WDropMeas}, {"read", pr.WRead}}
 	if !inWindow {
 		ws = append(ws, w{"snapshot", pr.WSnapshot}, w{"compact", pr.WCompact}, w{"compactfiles", pr.WCompactFiles},
-			w{"reopen", pr.WReopen}, w{"indexcompact", pr.WIndexCompact}, w{"burst", pr.WBurst})
+			w{"reopen", pr.WReopen}, w{"indexcompact", pr.WIndexCompact}, w{"burst", pr.WBurst}, w{"stagger", pr.WStagger})
 	}
 	total := 0
 	for _, x := range ws {
@@ -161,6 +161,34 @@ func GenHOp(t *rapid.T, pr *Profile, nshards int, label string, inWindow bool) H
 		o := HOp{Kind: kind, Shard: shard}
 		for b := 0; b < n; b++ {
 			o.Batches = append(o.Batches, GenBatch(t, 4, fmt.Sprintf("%s.b%d", label, b)))
+		}
+		return o
+	case "stagger":
+		// 2-4 generations of one series field that do not overlap in time
+		// (each its own TSM file), a range delete that lies inside a later
+		// generation only - its tombstone goes to that file alone -, then a
+		// compaction of the files
+		m := Measurements[rapid.IntRange(0, len(Measurements)-1).Draw(t, label+".m")]
+		tags := GenTags(t, label+".tags")
+		fd := Fields[rapid.IntRange(0, len(Fields)-1).Draw(t, label+".fd")]
+		o := HOp{Kind: kind, Shard: shard, Meas: m, CKind: CompactKind(rapid.IntRange(0, 4).Draw(t, label+".ck")), Pick: rapid.IntRange(0, 3).Draw(t, label+".pick")}
+		at := rapid.Int64Range(-30, 30).Draw(t, label+".base")
+		ngen := rapid.IntRange(2, 4).Draw(t, label+".ngen")
+		victim := rapid.IntRange(1, ngen-1).Draw(t, label+".victim")
+		for g := 0; g < ngen; g++ {
+			n := rapid.IntRange(1, 12).Draw(t, fmt.Sprintf("%s.n%d", label, g))
+			var b []model.Point
+			lo := at
+			for j := 0; j < n; j++ {
+				b = append(b, model.Point{M: m, Tags: tags, T: at, Fields: []model.FieldValue{{Name: fd.Name, V: GenValue(t, fd.K, fmt.Sprintf("%s.v%d.%d", label, g, j))}}})
+				at += rapid.Int64Range(1, 3).Draw(t, fmt.Sprintf("%s.s%d.%d", label, g, j))
+			}
+			if g == victim {
+				a := rapid.Int64Range(lo, at-1).Draw(t, label+".dmin")
+				o.Min, o.Max = a, rapid.Int64Range(a, at-1).Draw(t, label+".dmax")
+			}
+			o.Batches = append(o.Batches, b)
+			at += rapid.Int64Range(1, 5).Draw(t, fmt.Sprintf("%s.gap%d", label, g))
 		}
 		return o
 	case "conflict":
@@ -248,6 +276,8 @@ func DescribeHOp(o HOp) string {
 		return s + ")"
 	case "burst":
 		return fmt.Sprintf("burst(shard%d, %d x (write+snapshot))", o.Shard, len(o.Batches))
+	case "stagger":
+		return fmt.Sprintf("stagger(shard%d, %d disjoint generations of %s, delete [%d,%d], compact %s)", o.Shard, len(o.Batches), o.Meas, o.Min, o.Max, o.CKind)
 	case "compact":
 		return fmt.Sprintf("compact(shard%d,%s,%d,fault=%q@%d)", o.Shard, o.CKind, o.Pick, o.Fault, o.AbortAt)
 	case "compactfiles":
@@ -588,6 +618,21 @@ func (h *History) apply(i int, o HOp) {
 				return
 			}
 		}
+	case "stagger":
+		if m.Conflicts(o.Batches[0][0]) {
+			run.Logf("op%d stagger skipped: the field exists with another type", i)
+			return
+		}
+		h.apply(i, HOp{Kind: "burst", Shard: o.Shard, Batches: o.Batches})
+		if run.Failed() || h.stop {
+			return
+		}
+		h.apply(i, HOp{Kind: "delete", Shard: o.Shard, Meas: o.Meas, Min: o.Min, Max: o.Max})
+		if run.Failed() || h.stop {
+			return
+		}
+		run.Probe("delete-inside-later-generation")
+		h.apply(i, HOp{Kind: "compact", Shard: o.Shard, CKind: o.CKind, Pick: o.Pick})
 	case "rewrite":
 		// re-write an earlier batch verbatim, if the model still accepts all of it unchanged
 		if len(h.writes) == 0 {
@@ -798,6 +843,22 @@ func (h *History) apply(i int, o HOp) {
 			}
 		}
 		sim.IndexQuiesce()
+		// the database-wide series file: rebuild the on-disk index of every
+		// partition from its segments, as the background compaction does once
+		// 128K series have accumulated in memory (both index types share it)
+		if len(sim.Shards) > 0 {
+			if sh := sim.Store.Shard(sim.Shards[0]); sh != nil {
+				if sf, err := sh.SeriesFile(); err == nil && sf != nil {
+					for _, part := range sf.Partitions() {
+						if err := tsdb.NewSeriesPartitionCompactor().Compact(part); err != nil {
+							run.Fail("series-file-compaction-failed", "", "op%d: %v", i, err)
+							return
+						}
+					}
+					run.Probe("series-file-compacted")
+				}
+			}
+		}
 	case "read":
 		h.readCheck(i, o.Shard, o.Read)
 	}
